@@ -309,6 +309,20 @@ pub fn run(args: &Args) -> Report {
     let mut rep = Report::new("C08", &args.leg(), &args.tier(), args.seed());
     let mut rng = Rng::new(args.seed() ^ 0xC08);
     let n = if args.thorough() { 60_000 } else { 4_200 };
+    // every BMP scalar (thorough) / every 64th and the encoding boundaries (quick) in content and a tag string
+    {
+        let stride = if args.thorough() { 1 } else { 64 };
+        let (_, e2) = crate::c01::base_events();
+        for c in (0u32..=0xFFFF).filter(|c| c % stride == 0 || [0x7f, 0x80, 0x7ff, 0x800, 0x2028, 0x2029, 0xd7ff, 0xe000, 0xfeff, 0xfffd, 0xffff].contains(c)) {
+            if let Some(ch) = char::from_u32(c) {
+                let mut e = e2.clone();
+                e.content = format!("a{ch}");
+                e.tags = vec![vec!["t".into(), format!("{ch}")]];
+                check_event(&mut rep, &mut rng, &e, false);
+                rep.count("scalar_sweep_events");
+            }
+        }
+    }
     for k in 0..n {
         let mut e = gen_event(&mut rng, k);
         if e.tags.len() > 8 {
